@@ -6,6 +6,7 @@ package server
 import (
 	"fmt"
 	"reflect"
+	"strings"
 	"testing"
 
 	"rcproxy/core"
@@ -156,4 +157,57 @@ func verifAddSlot(slot int32, master string) {
 	rs := reflect.New(arr.Type().Elem().Elem())
 	rs.Elem().FieldByName("Master").Set(reflect.ValueOf(&core.ClusterNode{Addr: master, Role: core.Master}))
 	arr.Index(int(slot)).Set(rs)
+}
+
+// ---- OnMoved: redirects ----
+
+type verifOwner struct {
+	core.CConn
+	open bool
+}
+
+func (c *verifOwner) Fd() int        { return 7 }
+func (c *verifOwner) IsOpened() bool { return c.open }
+
+func (s *verifSConn) RemoteAddr() string { return "old:1" }
+
+// TestVerifSearch_OnMoved: (1) an ASK redirect must reach the named node preceded by ASKING; (2) a redirect to a
+// node without a pool, or whose dial fails, must still resolve the request (error reply or client closed).
+func TestVerifSearch_OnMoved(t *testing.T) {
+	ls := &listenServer{Options: &Options{}}
+	mk := func(typ codec.Command) (*core.Frag, *verifOwner) {
+		o := &verifOwner{open: true}
+		m := &core.Msg{Type: codec.ReqGet, Fd2Slot: map[int]int32{}}
+		f := &core.Frag{Owner: o, Peer: m, Type: typ, Req: []byte("*2\r\n$3\r\nget\r\n$1\r\nk\r\n"), RspBody: []byte("-ASK 5 m:1\r\n")}
+		m.Body = map[int32]*core.Frag{5: f}
+		return f, o
+	}
+	// (1)
+	back := &verifSConn{}
+	verifTopology(5, "m:1", nil, nil, nil)
+	core.EngineGlobal.ProxyPool["m:1"] = &core.Pool{Addr: "m:1", Dial: func(string, bool) (core.SConn, error) { return back, nil }}
+	f, _ := mk(codec.RspAsk)
+	ls.OnMoved("m:1", 5, &verifSConn{}, f)
+	if len(back.queued) == 1 && !strings.HasPrefix(string(back.queued[0].Req), "*1\r\n$6\r\nASKING\r\n") {
+		verifWitness(t, "OnMoved(ASK to known node m:1): the fragment is re-sent as %q without a preceding ASKING, so the importing node answers -MOVED again", back.queued[0].Req)
+	}
+	// (2)
+	for _, c := range []struct {
+		name string
+		prep func()
+	}{
+		{"node without a pool", func() {}},
+		{"node whose dial fails", func() {
+			core.EngineGlobal.ProxyPool["gone:1"] = &core.Pool{Addr: "gone:1", Dial: func(string, bool) (core.SConn, error) { return nil, fmt.Errorf("refused") }}
+		}},
+	} {
+		verifTopology(5, "m:1", nil, nil, nil)
+		c.prep()
+		f, o := mk(codec.RspMoved)
+		ls.OnMoved("gone:1", 5, &verifSConn{}, f)
+		if !f.Done && !f.Peer.Done && o.open {
+			verifWitness(t, "OnMoved(redirect to gone:1, %s): the fragment is dropped; the request is neither answered nor its client closed, so the client waits forever", c.name)
+			return
+		}
+	}
 }
